@@ -500,7 +500,9 @@ def decodeInstrs (data : Slice) (limit : Nat) (n0 : Nat) (is0 : List V) : R (Lis
       let d ← data.fromR s.n
       let i ← DecodeInstr d
       let (l, i) ← Instruction.lenM i
-      pure { n := s.n + l.toNat, is := s.is ++ [i] })
+      if l = 0 then .err else                    -- "decoded an instruction of length 0"
+      let (l2, i) ← Instruction.lenM i             -- n += int(instr.Len())
+      pure { n := s.n + l2.toNat, is := s.is ++ [i] })
     { n := n0, is := is0 }
   pure st.is
 
